@@ -40,32 +40,36 @@ Qed.
 (* a returned iteration count is the first index at which the test passes *)
 Lemma power_result_some k :
   power_result maxiter conv = Some k ->
-  [/\ k < maxiter, conv k & forall j, j < k -> ~~ conv j].
+  [/\ k <= maxiter, conv k & forall j, j < k -> ~~ conv j].
 Proof.
 rewrite /power_result; have [le pre cv] := power_loop_spec.
-rewrite /=; case: (leqP maxiter (power_loop _ _ _ _)) => [ge|lt]; first by [].
-by case=> <-; split=> //; apply: cv.
+rewrite /=; case: ifP => // F [] <-; split=> //.
+move: F; case: (leqP maxiter (power_loop _ _ _ _)) => [_ /= /negbFE //|lt _].
+exact: cv.
 Qed.
 
-(* the function raises exactly when the test fails at 0 .. maxiter-1: the
-   state reached after the last allowed solve (index maxiter) is never tested *)
+(* the function raises exactly when the test fails at every iterate
+   0 .. maxiter (the state after the last allowed solve included) *)
 Lemma power_result_none :
-  power_result maxiter conv = None <-> (forall j, j < maxiter -> ~~ conv j).
+  power_result maxiter conv = None <-> (forall j, j <= maxiter -> ~~ conv j).
 Proof.
 rewrite /power_result; have [le pre cv] := power_loop_spec.
-case: (leqP maxiter (power_loop _ _ _ _)) => [ge|lt]; split=> //.
-- move=> _ j jm; apply: pre; exact: leq_trans jm ge.
-- by move=> H; move: (H _ lt); rewrite cv.
+rewrite /=; split.
+- case: ifP => // /andP[ge nc] _ j; rewrite leq_eqVlt => /orP[/eqP->|lt].
+    by have -> : maxiter = power_loop maxiter maxiter 0 conv by apply/eqP; rewrite eqn_leq ge le.
+  by apply: pre; exact: leq_trans lt ge.
+- move=> H; case: ifP => //; rewrite (H _ le) andbT => /negbT; rewrite -ltnNge => lt.
+  by move: (H _ le); rewrite cv.
 Qed.
 
 End PowerLoop.
 
-(* intended behaviour: an error only if no iterate 0..maxiter passes the test.
-   The code raises although the maxiter-th solve converged. *)
-Lemma power_maxiter_refuted :
-  exists maxiter conv,
-    conv maxiter = true /\ power_result maxiter conv = None.
-Proof. by exists 1, (fun k => k == 1). Qed.
+(* the iterate produced by the last allowed solve is accepted *)
+Lemma power_maxiter_accepts_last maxiter conv :
+  conv maxiter = true -> power_result maxiter conv <> None.
+Proof.
+by move=> c /power_result_none /(_ maxiter (leqnn _)); rewrite c.
+Qed.
 
 (* -------------------------------------------------- svd witness (3 levels) *)
 (* H = [[0,0,0],[0,0,i],[0,-i,1]], c_ops = |1><0|, |1><2|;  wL = 2 * liouvillian
@@ -89,13 +93,20 @@ Definition gz13r : GZ := (13%Z, 0%Z).
 Definition gz13c : GZ := (13%Z, 13%Z).
 Definition gz_adjoint_tab n (M : seq (seq GZ)) := tab_mx n n (adjoint gzcj (of_rows M)).
 
-(* a null vector of a Liouvillian for which the svd post-processing divides
-   by something else than the trace and returns a non-Hermitian matrix *)
+(* 13 * rho_ss of the witness system (Hermitian, trace 13) *)
+Local Open Scope Z_scope.
+Definition wrho : seq (seq GZ) :=
+[:: [:: (0, 0); (0, 0); (0, 0)]; [:: (0, 0); (9, 0); (-2, -4)]; [:: (0, 0); (-2, 4); (4, 0)]].
+Definition gz1i : GZ := (1, 1).
+Local Close Scope Z_scope.
+
+(* the null vector wv = (1+i) * vec(13 rho_ss) of non-real trace is now divided
+   by its trace 13+13i = (1+i)*13: the result is rho_ss, Hermitian, trace one *)
 Lemma svd_witness :
   [/\ gz_is_zero_vec (gz_mulv 9 wL wv) = true,
-      (gz_svd_post 3 wv).2 = gz13r,
-      (gz_eigen_post 3 wv).2 = gz13c
-    & gz_adjoint_tab 3 (gz_svd_post 3 wv).1 <> (gz_svd_post 3 wv).1].
+      (gz_svd_post 3 wv).2 = gzmul gz1i gz13r,
+      (gz_svd_post 3 wv).1 = map (map (gzmul gz1i)) wrho
+    & gz_adjoint_tab 3 wrho = wrho /\ ftr gz0 gzadd 3 (of_rows wrho) = gz13r].
 Proof. by split; vm_compute. Qed.
 
 (* the trace row of the same generator vanishes (it is a Liouvillian) *)
